@@ -1,4 +1,41 @@
-/- dsmodel_bloom: model driver stub (filled in when the family is built). -/
-def main (_args : List String) : IO UInt32 := do
-  IO.eprintln "dsmodel_bloom: not built yet"
-  return 2
+/- dsmodel_bloom: `bloom` = filter/memory-block histories, `hash` = XXHash64 + canonicalisation tie,
+   `sugg` = builder arithmetic tie.  `bloomfixed` runs the model with the three proposed repairs on. -/
+import DSModel.Bloom.Driver
+import DSModel.Bloom.GhostDriver
+import DSModel.DriverLoop
+import DSGen.Bloom
+open DS DS.Bloom
+
+def genParams : Params :=
+  { dirty := DSGen.bloom_DIRTY_BITS_VALUE, preEmpty := DSGen.bloom_PREAMBLE_LONGS_EMPTY,
+    preStd := DSGen.bloom_PREAMBLE_LONGS_STANDARD, family := DSGen.bloom_FAMILY_ID, serVer := DSGen.bloom_SER_VER,
+    emptyMask := DSGen.bloom_EMPTY_FLAG_MASK, nbsOff := DSGen.bloom_NUM_BITS_SET_OFFSET_BYTES,
+    bitsOff := DSGen.bloom_BIT_ARRAY_OFFSET_BYTES, maxBits := DSGen.bloom_MAX_FILTER_SIZE_BITS }
+
+def genPrimes : XXH.Primes :=
+  { p1 := UInt64.ofNat DSGen.xxh_Prime1, p2 := UInt64.ofNat DSGen.xxh_Prime2, p3 := UInt64.ofNat DSGen.xxh_Prime3,
+    p4 := UInt64.ofNat DSGen.xxh_Prime4, p5 := UInt64.ofNat DSGen.xxh_Prime5 }
+
+def hashStep (w : List String) : String :=
+  match w with
+  | ["xx", b, seed] =>
+    match parseHexBytes b, seed.toNat? with
+    | some b, some s => s!"X {hex64 (XXH.hash genPrimes b (UInt64.ofNat s))}"
+    | _, _ => "bad-op"
+  | ["hash", ty, lit, seed] =>
+    match parseInput ty lit, seed.toNat? with
+    | some i, some s => match hashPair genPrimes i s with
+      | some (h0, h1) => "H" ++ (sortNat (indices h0 h1 65536 4)).eraseDups.foldl (fun a i => a ++ s!" {i}") ""
+      | none => "H ignored"
+    | _, _ => "bad-op"
+  | _ => "bad-op"
+
+def main (args : List String) : IO UInt32 := do
+  match args with
+  | ["hash"] => runDriver () (fun _ w => ((), hashStep w))
+  | ["sugg"] => runDriver () (fun _ w => ((), suggStep genParams w))
+  | ["bloom"] => runDriver ({} : DState) (stepLine genParams genPrimes Fix.asCoded)
+  | ["bloomghost"] => runDriver ({} : GState) (gStep genParams genPrimes Fix.asCoded)
+  | ["bloomghostfixed"] => runDriver ({} : GState) (gStep genParams genPrimes Fix.fixed)
+  | ["bloomfixed"] => runDriver ({} : DState) (stepLine genParams genPrimes Fix.fixed)
+  | _ => IO.eprintln "usage: dsmodel_bloom bloom|bloomfixed|bloomghost|bloomghostfixed|hash|sugg"; return 2
